@@ -5,7 +5,7 @@ from .oracle_env import env_for
 from .url_grammar import gen_su, gen_url, call
 from .C04 import irrelevant_variants
 
-THEOREMS = ['C06_no_scheme', 'C06_case_irrelevant'] + ["(main statement: harness deciders on the implementation + model correspondence — partial)"]
+THEOREMS = ['C06_no_scheme', 'C06_case_irrelevant', 'C06_of_lowered'] + ["(main statement: harness deciders on the implementation + model correspondence — partial)"]
 
 
 def run(res, tier, rng):
